@@ -4,6 +4,7 @@ package timesafeguard
 
 import (
 	"encoding/json"
+	"math"
 	"encoding/pem"
 	"flag"
 	"fmt"
@@ -28,6 +29,7 @@ type c19Peer struct {
 	Request  time.Duration // delay until the remote side reads its clock
 	Response time.Duration // delay until the local side has the answer
 	Answers  bool
+	Far      int // additional years (far beyond what a Duration can hold), 0 = none
 }
 
 func (p c19Peer) result(t0 time.Time) timeResult {
@@ -35,23 +37,32 @@ func (p c19Peer) result(t0 time.Time) timeResult {
 		// what collectTime leaves behind for a peer that could not be reached
 		return timeResult{}
 	}
+	res := t0.Add(p.Request).Add(p.Offset)
+	if p.Far != 0 {
+		// beyond +-292 years a time.Duration cannot express the offset any more
+		res = res.AddDate(p.Far, 0, 0)
+	}
 	return timeResult{
 		Start:  t0,
-		Result: t0.Add(p.Request).Add(p.Offset),
+		Result: res,
 		End:    t0.Add(p.Request).Add(p.Response),
 	}
 }
 
 // tight is the smallest bound on |true offset| that the measurement proves:
 // the true offset lies in [Result-End, Result-Start].
+func absDuration(d time.Duration) time.Duration {
+	if d == math.MinInt64 {
+		return math.MaxInt64 // Time.Sub saturates; -MinInt64 would overflow
+	}
+	if d < 0 {
+		return -d
+	}
+	return d
+}
+
 func tight(r timeResult) time.Duration {
-	a, b := r.Result.Sub(r.End), r.Result.Sub(r.Start)
-	if a < 0 {
-		a = -a
-	}
-	if b < 0 {
-		b = -b
-	}
+	a, b := absDuration(r.Result.Sub(r.End)), absDuration(r.Result.Sub(r.Start))
 	if a > b {
 		return a
 	}
@@ -59,7 +70,7 @@ func tight(r timeResult) time.Duration {
 }
 
 func c19Dur(rng *rand.Rand) time.Duration {
-	switch rng.Intn(8) {
+	switch rng.Intn(9) {
 	case 0:
 		return 0
 	case 1:
@@ -75,6 +86,10 @@ func c19Dur(rng *rand.Rand) time.Duration {
 		return ElectionTimeout/2 + time.Duration(rng.Int63n(2001)-1000)*time.Microsecond
 	case 6:
 		return time.Duration(rng.Int63n(int64(2 * time.Hour)))
+	case 7:
+		// clocks that are absurdly off (reset to an epoch, or far in the future): decades to
+		// beyond what a time.Duration can express (the caller adds such offsets twice or more)
+		return []time.Duration{50 * 365 * 24 * time.Hour, 200 * 365 * 24 * time.Hour, math.MaxInt64 - time.Duration(rng.Int63n(1e9)), math.MaxInt64 / 2}[rng.Intn(4)]
 	}
 	return time.Duration(rng.Int63n(int64(time.Second)))
 }
@@ -93,6 +108,9 @@ func c19Peers(rng *rand.Rand) []c19Peer {
 			req, resp = time.Duration(rng.Int63n(int64(300*time.Millisecond))), time.Duration(rng.Int63n(int64(300*time.Millisecond)))
 		}
 		peers[i] = c19Peer{Offset: off, Request: req, Response: resp, Answers: rng.Intn(5) != 0}
+		if rng.Intn(25) == 0 {
+			peers[i].Far = []int{-2000, -400, 400, 3000}[rng.Intn(4)]
+		}
 	}
 	return peers
 }
